@@ -61,6 +61,11 @@ CONV = {
     "string(length=3)": lambda rng: fixed_text(rng, 3),
     "string(minlength=2,maxlength=4)": lambda rng: seg_text(rng, 2, 4),
     "string(minlength=2)": lambda rng: seg_text(rng, 2, 6),
+    # the same converter with the same option names and other values (several of them meet in one map)
+    "string(length=2)": lambda rng: fixed_text(rng, 2),
+    "string(minlength=3,maxlength=5)": lambda rng: seg_text(rng, 3, 5),
+    "int(fixed_digits=2)": lambda rng: rng.choice([0, 7, 42, 99]),
+    "int(min=1,max=9)": lambda rng: rng.randrange(1, 10),
     "int": lambda rng: rng.choice([0, 7, 42, 10**12, rng.randrange(10**6)]),
     "int(signed=True)": lambda rng: rng.choice([0, -7, 42, -(10**9), -rng.randrange(10**6)]),
     "int(fixed_digits=3)": lambda rng: rng.choice([0, 7, 42, 999, rng.randrange(1000)]),
